@@ -163,10 +163,11 @@ Example first_snapshot_torn :
 Proof. exact first_snapshot_torn_proof. Qed.
 Print Assumptions first_snapshot_torn.
 
-(* check c = true (Index/ProtoCorr.v) on a case whose start directory is well-formed (disk_okb, evaluated
-   like check) puts the recorded run under all the theorems above *)
+(* check c = true (Index/ProtoCorr.v: the start directory is well-formed — disk_okb —, the opened root
+   is the recovered one, the recorded events are accepted, the crash probes agree) puts the recorded run
+   under all the theorems above *)
 Theorem check_run_invariant : forall c,
-  1 <= pc_n c -> disk_okb (pc_table c) (pc_disk c) = true -> check c = true ->
+  1 <= pc_n c -> check c = true ->
   exists st0 st, init_pstate c = Some st0 /\ start_ok (pc_table c) (pc_n c) st0 /\
     paccept_run (pc_table c) st0 (pc_events c) = Some st /\ pinv (pc_table c) st.
 Proof. exact ProtoProofsRounds.check_run_invariant. Qed.
